@@ -561,7 +561,7 @@ _NEW_RULE = """mod very_very {
                 span: matched_tokens.span()?,
                 lint_kind: LintKind::Repetition,
                 suggestions: vec![Suggestion::ReplaceWith(first)],
-                message: "One \u{201c}very\u{201d} is enough.".to_string(),
+                message: "One very is enough.".to_string(),
                 priority: 126,
             })
         }
